@@ -35,6 +35,7 @@ struct OpCtx {
 	int frees = 0;
 };
 
+extern volatile int g_tsan_flood; // set by the TSan glue after many reports: stop un-ignoring the library
 void lib_enter(OpCtx *ctx);   // calling thread enters library scope
 void lib_exit();
 
